@@ -47,7 +47,12 @@ pub fn enga_profile(property: &str, tier: Tier) -> Option<Profile> {
         p.steps = 6;
     }
     match property {
-        "C01" | "C02" | "C04" | "C39" => { }
+        "C01" | "C02" | "C04" => { }
+        "C39" => {
+            // Half of the runs look at the snapshot the server serves after
+            // its update cycle (what clients and the scheduler see).
+            p.via_server_pct = 50;
+        }
         "C03" => {
             only(&mut p, &[
                 (AddObj, 10), (RemoveObj, 3), (Touch, 3), (Revoke, 2),
